@@ -218,6 +218,21 @@ def elf_s390x_osinfo(d, name="elf-s390x-osinfo", pad=3000):
     return path
 
 
+def elf_xen_unaligned(d, name="elfxen-unaligned", off=0x3ffc):
+    """The suite's xc_core (Xen domain) ELF with the .xen_pfn section moved to a file offset that
+    is not a multiple of the entry size and just below a page boundary: the first entry straddles
+    two file-cache blocks (with file.mmap_policy = never), which the library reads through
+    fcache_get_fb's fallback buffer."""
+    src = open(os.path.join(os.path.dirname(tool("mkelf")), "elf-xen_prstatus.data")).read()
+    assert "offset=0x3430" in src and "offset=0x4000" in src
+    src = src.replace("offset=0x3430", "offset=%#x" % off).replace("offset=0x4000", "offset=0x5000")
+    data = os.path.join(d, name + ".data")
+    with open(data, "w") as f:
+        f.write(src)
+    cfg = "ei_class = 2\nei_data = 1\nei_abiversion = 1\ne_machine = 62\ne_shoff = 0x40\ne_shstrndx = 1\nDATA = %s\n" % data
+    return _run("mkelf", os.path.join(d, name + ".dump"), cfg)
+
+
 def lkcd_bad(d, name="lkcd-bad"):
     """An LKCD dump (gzip) with a page whose stream expands to more than a page with compressed
     input left over when the page is full, next to good pages.  (path, bad addresses, good ones)"""
